@@ -374,3 +374,37 @@ ENTRIES += [
     M("C18-reader-suffix", "C18", "C18.2", (UT, "        return eqx.tree_deserialise_leaves(\n            path, eqx.filter_eval_shape", "        return eqx.tree_deserialise_leaves(\n            str(path) + \".eqx\", eqx.filter_eval_shape")),
     M("C18-policy-not-serializable", "C18", "C18.4", ("lerax/policy/base_policy.py", "    Serializable\n):", "    eqx.Module\n):")),
 ]
+
+GR = "lerax/env/unitree/g1/randomize.py"
+GG = "lerax/env/unitree/g1/gait.py"
+GB = "lerax/env/unitree/g1/base_g1.py"
+GL = "lerax/env/unitree/g1/locomotion.py"
+GS = "lerax/env/unitree/g1/standing.py"
+GU = "lerax/env/unitree/g1/standup.py"
+
+ENTRIES += [
+    # ---------------------------------------------------------------- C20
+    M("C20-kw-misaligned", "C20", "C20.2", (GU, "            friction_loss_scale_range=self.friction_loss_scale_range,", "            friction_loss_scale_range=self.armature_scale_range,")),
+    M("C20-two-fields", "C20", "C20.1", (GR, "    return model.tree_replace({\"dof_armature\": dof_armature})", "    return model.tree_replace({\"dof_armature\": dof_armature, \"dof_damping\": dof_armature})")),
+    M("C20-minval-swapped", "C20", "C20.1", (GR, "    friction = jr.uniform(key, minval=friction_range[0], maxval=friction_range[1])", "    friction = jr.uniform(key, minval=friction_range[1], maxval=friction_range[1])")),
+    M("C20-nominal-plus", "C20", "C20.1", (GR, "    armature = nominal_armature * scales", "    armature = nominal_armature + scales")),
+    M("C20-model-forward-swapped", "C20", "C20.1", (GR, "        scale_range=armature_scale_range,\n    )", "        scale_range=friction_loss_scale_range,\n    )")),
+    M("C20-same-key", "C20", "C20.1", (GR, "    model = randomize_armature(\n        model,\n        key=armature_key,", "    model = randomize_armature(\n        model,\n        key=floss_key,")),
+    M("C20-mass-offset-wrong-body", "C20", "C20.1", (GR, "    body_mass = body_mass.at[torso_body_id].set(body_mass[torso_body_id] + torso_offset)", "    body_mass = body_mass.at[0].set(body_mass[torso_body_id] + torso_offset)")),
+    M("C20-no-forward-after-snap", "C20", "C20.2", (GB, "        data = data.replace(qpos=qpos)\n        return mjx.forward(model, data)", "        data = data.replace(qpos=qpos)\n        return data")),
+    M("C20-no-forward-before-snap", "C20", "C20.2", (GS, "        data = mjx.forward(model, data)\n        data = self._snap_to_ground(model, data)", "        data = self._snap_to_ground(model, data)")),
+    M("C20-standing-nonzero-command", "C20", "C20.2", (GS, "            command=jnp.zeros(3),\n            step_count=jnp.array(0.0),", "            command=jnp.ones(3),\n            step_count=jnp.array(0.0),")),
+    M("C20-base-model-kept", "C20", "C20.2", (GU, "            t=jnp.array(0.0),\n            model=model,", "            t=jnp.array(0.0),\n            model=self.base_model,")),
+    M("C20-cmd-range-swapped", "C20", "C20.2", (GL, "vy_key, minval=self.lin_vel_y_range[0], maxval=self.lin_vel_y_range[1]", "vy_key, minval=self.lin_vel_x_range[0], maxval=self.lin_vel_x_range[1]")),
+    M("C20-freq-from-cmd-range", "C20", "C20.2", (GL, "            minval=self.gait_frequency_range[0],\n            maxval=self.gait_frequency_range[1],", "            minval=self.gait_frequency_range[0],\n            maxval=self.lin_vel_x_range[1],")),
+    M("C20-phase-no-dt", "C20", "C20.3", (GG, "    phase_increment = 2 * jnp.pi * frequency * dt", "    phase_increment = 2 * jnp.pi * frequency")),
+    M("C20-phase-twice", "C20", "C20.3", (GB, "            gait_phase=new_phase,", "            gait_phase=advance_gait_phase(new_phase, state.gait_frequency, self.dt),")),
+    M("C20-phase-per-foot", "C20", "C20.3", (GG, "    next_phase = phase + phase_increment", "    next_phase = phase + phase_increment * jnp.array([1.0, 2.0])")),
+    M("C20-phase-nowrap-shift", "C20", "C20.3", (GG, "    return jnp.fmod(next_phase + jnp.pi, 2 * jnp.pi) - jnp.pi", "    return jnp.fmod(next_phase, 2 * jnp.pi) - jnp.pi")),
+    M("C20-initial-phase-same", "C20", "C20.3", (GG, "    return jnp.array([0.0, jnp.pi])", "    return jnp.array([0.0, 0.0])")),
+    M("C20-bezier-wrong", "C20", "C20.4", (GG, "        bezier = x**3 + 3 * (x**2 * (1 - x))", "        bezier = x**3 + 3 * (x * (1 - x))")),
+    M("C20-frequency-drift", "C20", "C20.3", (GB, "            gait_frequency=state.gait_frequency,", "            gait_frequency=state.gait_frequency * 1.01,")),
+    M("C20-step-base-model", "C20", "C20.3", (GB, "        model = state.model\n", "        model = self.base_model\n")),
+    M("C20-stance-swing-swapped", "C20", "C20.4", (GG, "    return jnp.where(x <= 0.5, stance, swing)", "    return jnp.where(x <= 0.5, swing, stance)")),
+    V("C20-v-phase-commute", "C20", (GG, "    phase_increment = 2 * jnp.pi * frequency * dt", "    phase_increment = dt * frequency * jnp.pi * 2")),
+]
